@@ -258,6 +258,7 @@ def run(ctx):
     rm.replay_idle_clause(ctx, res, 'C01', 'C01.h', 'every exit of play() resets counter / outputs / playback recording (ordinals restart at 1)')
     rm.interception_flag_clause(ctx, res, 'C01', 'C01.i')
     rm.ordinals_only_when_intercepted_clause(ctx, res, 'C01', 'C01.j')
+    rm.key_helpers_stateless_clause(ctx, res, 'C01', 'C01.k')
     # ---------------- C01.f
     cf = res.clause('C01.f', 'R-PROV', 'play(): fetched recording installed as playback recording, extracted from, returned', floor=3)
     ok, why = play_uses_fetched(roles)
